@@ -987,3 +987,53 @@ def _strtod(I, a):
             val = I.mkfloat(v) if v == v and v not in (INF, -INF) else v
     if len(a) > 1 and a[1] != NULL: I.store(a[1], (p[0], p[1] + end), 8)
     return val
+
+def _split_words(bs):
+    words = []; cur = bytearray()
+    for b in bs:
+        if isinstance(b, SV): raise Unsupported('symbolic byte in a text to compare')
+        if b in (32, 9, 10, 13):
+            if cur: words.append(bytes(cur)); cur = bytearray()
+        else: cur.append(b)
+    if cur: words.append(bytes(cur))
+    return words
+def _word_value(I, w):
+    import re
+    m = re.fullmatch(rb'\x1b(\d+)\x1b', w)
+    if m: return I.ext['tokens'][int(m.group(1))]
+    try: return Fraction(w.decode('latin1'))
+    except (ValueError, ZeroDivisionError): pass
+    try:
+        f = float(w.decode('latin1'))
+        return f
+    except ValueError: return None
+@ext('verif_text_equal')
+def _v_text_equal(I, a):
+    """void verif_text_equal(const char *a, long na, const char *b, long nb, const char *label): the two texts consist of the same
+    words; words that differ as bytes must both be numbers (printed digits or in-band tokens) with provably equal values"""
+    from . import explore
+    label = _name(I, a[4])
+    if I.inputs is not None: return None
+    A = _split_words(I.read_bytes(a[0], a[1]) if a[1] else []); B = _split_words(I.read_bytes(a[2], a[3]) if a[3] else [])
+    if len(A) != len(B):
+        I.notes.append('%s: %d words against %d' % (label, len(A), len(B)))
+        explore.assert_bool(I, 0, label + '.same_structure'); return None
+    nnum = 0; bad = None
+    for k, (wa, wb) in enumerate(zip(A, B)):
+        if wa == wb: continue
+        va = _word_value(I, wa); vb = _word_value(I, wb)
+        if va is None or vb is None:
+            bad = (k, wa, wb); break
+        nnum += 1
+        if isinstance(va, SV) or isinstance(vb, SV):
+            ea = va.e if isinstance(va, SV) else z3.IntVal(int(va)); eb = vb.e if isinstance(vb, SV) else z3.IntVal(int(vb))
+            if z3.is_bv(ea) != z3.is_bv(eb): raise Unsupported('integer tokens of different sorts')
+            explore.assert_bool(I, sv(ea == eb), label + '.numbers')
+        else:
+            explore.prove_equal(I, va, vb, label + '.numbers')
+    if bad is not None:
+        I.notes.append('%s: word %d differs: %r / %r' % (label, bad[0], bad[1][:40], bad[2][:40]))
+        explore.assert_bool(I, 0, label + '.same_structure')
+    else:
+        explore.assert_bool(I, 1, label + '.same_structure')
+    return None
